@@ -234,7 +234,7 @@ package dispatch
 // loop ends only when the group was destroyed or its context cancelled. (select/ticker are abstracted: any tick
 // value, any interleaving with cancellation.)
 //@ func (*aggrGroup).run
-//@   props C04 C05 C06
+//@   props C04 C05 C06 C20
 //@   nosafe
 //@   at call context.WithTimeout assert [each-flush-gets-the-full-delivery-budget-from-when-it-starts] arg1 == ret("dynamic:field:timeout") && count("context.WithTimeout") == count("aggrGroup).flush")
 //@   at call aggrGroup).flush assert [flush-under-a-budgeted-context] count("context.WithTimeout") == count("aggrGroup).flush") + 1
